@@ -135,6 +135,39 @@ def run_constructors(ctx, byte):
                     ctx.fail(case, f"{name}(dtype={src}) raised {type(err).__name__}: {str(err)[:120]}", ["constructor", f"constructor:{name}", "raises"])
 
 
+def run_mixed(ctx, byte):
+    """coefficient lists / dicts whose entries have different dtypes: the stored dtype is numpy's promotion, values exact"""
+    with warnings.catch_warnings():
+        warnings.simplefilter("ignore")
+        for da in DTYPES:
+            for db in DTYPES:
+                xa, xb = data(da), data(db)
+                want_dt = numpy.result_type(xa, xb)
+                case = {"kind": "mixed", "a": da, "b": db}
+                ctx.evaluations += 1
+                if da != db:
+                    ctx.nontrivial_add(("mixed", da, db))
+                try:
+                    p = numpoly.polynomial_from_attributes([[0], [1]], [xa, xb])
+                except Exception as err:  # noqa: BLE001
+                    ctx.fail(case, f"polynomial_from_attributes with {da} and {db} coefficients raised {type(err).__name__}: {str(err)[:100]}", ["mixed", "raises"])
+                    continue
+                got = {int(e[0]): c for e, c in zip(p.exponents.tolist(), p.coefficients)}
+                ok = p.dtype == want_dt and not poisoned(p, byte)
+                for k, x in ((0, xa), (1, xb)):
+                    if numpy.any(x) and not exact_equal(got.get(k, numpy.zeros(3, want_dt)), x.astype(want_dt)):
+                        ok = False
+                if not ok:
+                    ctx.fail(case, f"polynomial_from_attributes([{da} array, {db} array]) holds {[c.tolist() for c in p.coefficients]} ({p.dtype}); exact values {xa.tolist()}, {xb.tolist()} in {want_dt}", ["mixed", "value", f"a:{da}", f"b:{db}"])
+        # dict with Python scalars of different kinds
+        for first, second in ((1, 2.5), (2.5, 1), (1, 1 + 2j), (True, 3)):
+            ctx.evaluations += 1
+            p = numpoly.polynomial({(0,): first, (1,): second})
+            got = {int(e[0]): c.item() for e, c in zip(p.exponents.tolist(), p.coefficients)}
+            if got != {0: first, 1: second} or poisoned(p, byte):
+                ctx.fail({"kind": "mixed", "dict": [repr(first), repr(second)]}, f"polynomial({{(0,): {first!r}, (1,): {second!r}}}) holds {got}", ["mixed", "dict", "value"])
+
+
 def numpy_arith(op, a, b):
     with numpy.errstate(all="ignore"):
         return {"add": numpy.add, "sub": numpy.subtract, "mul": numpy.multiply}[op](a, b)
@@ -292,6 +325,7 @@ def run(ctx):
     for byte in bytes_:
         with poison(byte):
             run_constructors(ctx, byte)
+            run_mixed(ctx, byte)
             run_arithmetic(ctx, byte)
             run_shape_functions(ctx, byte)
             run_empty_results(ctx, byte)
@@ -309,7 +343,7 @@ def search(ctx):
 def replay(ctx, case):
     n = len(ctx.failures)
     with poison(0xA5):
-        {"constructor": run_constructors, "arith": run_arithmetic, "shape": run_shape_functions,
+        {"constructor": run_constructors, "mixed": run_mixed, "arith": run_arithmetic, "shape": run_shape_functions,
          "empty": run_empty_results, "size0": run_empty_results}[case["kind"]](ctx, 0xA5)
     keys = [k for k in ("constructor", "src", "req", "op", "a", "b", "what", "dtype") if k in case]
     hits = [f for f in ctx.failures[n:] if all(f["case"].get(k) == case[k] for k in keys)]
